@@ -55,6 +55,7 @@ class RenderContext:
     __slots__ = (
         "_copy_depth",
         "autoescape",
+        "base_globals",
         "counters",
         "disabled_tags",
         "env",
@@ -90,6 +91,11 @@ class RenderContext:
         # A read-only namespace containing globally available variables. Usually
         # passed down from the environment.
         self.globals: Mapping[str, object] = globals or {}
+
+        # The global variables of the root render context. An isolated copy of this
+        # context (see `copy`) is built on these, not on `globals`, so a partial
+        # template never sees the arguments of an enclosing partial template.
+        self.base_globals: Mapping[str, object] = self.globals
 
         # A namespace for `increment` and `decrement` counters.
         self.counters: dict[str, int] = {}
@@ -441,7 +447,7 @@ class RenderContext:
         else:
             ctx = self.__class__(
                 template or self.template,
-                globals=ReadOnlyChainMap(namespace, self.globals),
+                globals=ReadOnlyChainMap(namespace, self.base_globals),
                 disabled_tags=disabled_tags,
                 copy_depth=self._copy_depth + 1,
                 parent_context=self,
@@ -449,6 +455,7 @@ class RenderContext:
                 local_namespace_size_carry=self.get_size_of_locals(),
             )
 
+        ctx.base_globals = self.base_globals
         return ctx
 
     def error(self, exc: LiquidError) -> None:
